@@ -74,4 +74,30 @@ PROPS = {
                       "exact root inside its bracket (floats as reals: the one-ulp-beside-a-level corner is a rounding question "
                       "and is not decided). build_head_mapping's averaging is covered under C13.",
     },
+    "C14": {
+        "targets": ["spowtd.spline:Spline.domain", "spowtd.spline:Spline.__call__", "spowtd.spline:Spline.integrate",
+                    "spowtd.specific_yield:SpecificYield.__call__", "spowtd.specific_yield:SpecificYield.integrate",
+                    "lemma:integral_additive_antisymmetric"],
+        "bounded": [{"run": "bounded.spline_checks:run_C14",
+                     "what": "bounded validation of the FITPACK contracts (splrep interpolates the knots, splint = F(clamp b) - F(clamp a)) "
+                             "and of the whole statement on real SplineSpecificYield objects against quadrature of their own __call__"}],
+        "level_text": "Unbounded proof (real arithmetic, all positions of the limits relative to the knot range, either order, "
+                      "incl. the recursive call for swapped limits) that Spline.__call__ is the spline at the clamped argument and "
+                      "that Spline.integrate(a, b) = G(b) - G(a) for one antiderivative G of that clamped function; additivity and "
+                      "antisymmetry are lemmas over this contract. Knot interpolation rests on the assumed contract of splrep and "
+                      "is validated bounded.",
+        "level_note": "Assumed: scipy splrep(s=0) interpolates its points; splev evaluates that spline; splint(a, b) = F(clamp b) - "
+                      "F(clamp a) with F' = S on the knot range (FITPACK is zero outside). Floats as reals.",
+    },
+    "C17": {
+        "targets": ["spowtd.simulate_rise:compute_rise_curve", "spowtd.specific_yield:SpecificYield.integrate",
+                    "spowtd.spline:Spline.integrate", "lemma:telescoping"],
+        "bounded": [{"run": "bounded.simulate_checks:run_C17",
+                     "what": "bounded stand-in for the mean clause, refinement / monotonicity corollaries and the tabulated output of "
+                             "simulate_rise (real functions, master-curve tables in a database built from the real schema)"}],
+        "level_text": "Unbounded proof that compute_rise_curve returns, for any grid, values whose pairwise differences are "
+                      "G(level_j) - G(level_i), G being the antiderivative of the specific yield from C14's proved contract "
+                      "(loop invariant + telescoping lemma proved by induction). Mean and output layout are a bounded stand-in.",
+        "level_note": "Assumed: numpy cumsum / mean as in libspec; the FITPACK contracts of C14; yaml.dump round trip (bounded).",
+    },
 }
